@@ -26,7 +26,7 @@ func (c *Ctx) normExpr(e ast.Expr, subst map[types.Object]string, defs map[types
 		if s, ok := subst[o]; ok {
 			return s
 		}
-		if ds := defs[o]; len(ds) == 1 && ds[0] != nil && depth < 4 {
+		if ds := defs[o]; len(ds) == 1 && ds[0] != nil && depth < 4 && c.pureNameExpr(ds[0]) {
 			if _, isVar := o.(*types.Var); isVar {
 				return c.normExpr(ds[0], subst, defs, depth+1)
 			}
@@ -255,4 +255,26 @@ func ruleLookupGuard(c *Ctx) {
 
 func (c *Ctx) recvTypeName(fd *ast.FuncDecl) string {
 	return strings.TrimSuffix(c.funcName(fd), "."+fd.Name.Name)
+}
+
+// pureNameExpr: an expression worth inlining into a guard - built from names, constants and calls of the
+// strings / strconv packages only. Results of consultations (GetForToken, map lookups) stay opaque.
+func (c *Ctx) pureNameExpr(e ast.Expr) bool {
+	pure := true
+	ast.Inspect(e, func(n ast.Node) bool {
+		switch x := n.(type) {
+		case *ast.CallExpr:
+			if c.isBuiltin(x, "len") || c.isConversion(x) {
+				return true
+			}
+			f, _ := c.callee(x).(*types.Func)
+			if f == nil || f.Pkg() == nil || f.Pkg().Path() != "strings" && f.Pkg().Path() != "strconv" {
+				pure = false
+			}
+		case *ast.IndexExpr, *ast.TypeAssertExpr, *ast.FuncLit:
+			pure = false
+		}
+		return pure
+	})
+	return pure
 }
